@@ -66,4 +66,144 @@ static NS __attribute__((unused)) void* h_dirty_alloc(size_t n) {
   memset(p, pat[wl_pick(5)], n);
   return p;
 }
+
+#ifdef H_WITH_DEFERRED_UNLOCK
+/* ---- deferred-unlock scenario (C03 hand-off, C10 polling loops) ----
+ * fiber_cond_wait releases the caller's mutex only after the caller has been switched out: the next fiber on
+ * that kernel thread - or the thread's maintenance fiber, if nothing else is runnable - performs the unlock.
+ * A contender is made slow (directed stall) right after it has announced itself on the mutex and before it
+ * has queued itself, so that the unlocking fiber has to wait for it, while other fibers only ever yield.
+ * Everybody must still finish. */
+#include "fiber.h"
+#include "fiber_cond.h"
+#include "fiber_manager.h"
+#include "fiber_mutex.h"
+static fiber_mutex_t* du_m;
+static fiber_cond_t* du_cv;
+static volatile int du_flag, du_w_waiting, du_done_w, du_done_c;
+static long du_counter;
+static int du_k, du_nth, du_steps, du_sig_yields;
+static NS void du_progress(void) { sim_progress(); }
+static int du_maint_spun;
+static NS void du_on_spin(void) { /* reach probe: the unlocker that has to wait for the contender is a thread's maintenance fiber */
+  fiber_manager_t* m = fiber_manager_get();
+  if (m && m->current_fiber == m->maintenance_fiber && m->wake_mpsc_spin_count > 0 && !du_maint_spun) {
+    du_maint_spun = 1;
+    sim_probe("deferred_unlock_by_maintenance_fiber_waits", 1);
+  }
+}
+static void* du_waiter(void* p) {
+  (void)p;
+  for (int k = 0; k < du_k; k++) fiber_yield();
+  fiber_mutex_lock(du_m);
+  du_w_waiting = 1;
+  while (!du_flag) fiber_cond_wait(du_cv, du_m);
+  du_counter++;
+  fiber_mutex_unlock(du_m);
+  du_done_w = 1;
+  du_progress();
+  return NULL;
+}
+static void* du_signaller(void* p);
+static void* du_poller(void* p);
+static int du_main_waits, du_npoll;
+static fiber_t* du_spawned[8];
+static volatile int du_nspawned;
+static void* du_contender(void* p) {
+  (void)p;
+  if (du_main_waits) {
+    /* the contender brings the other fibers along: they start on whichever kernel thread it runs on, which is
+     * about to be descheduled with them in its run queue */
+    int n = 0;
+    du_spawned[n++] = fiber_create(STK, du_signaller, NULL);
+    for (int i = 0; i < du_npoll; i++) du_spawned[n++] = fiber_create(STK, du_poller, (void*)(intptr_t)(i + du_sig_yields));
+    du_nspawned = n;
+  }
+  while (!du_w_waiting) fiber_yield();
+  sim_stall_after_rmw(du_nth, du_steps);
+  fiber_mutex_lock(du_m);
+  sim_stall_after_rmw(0, 0);
+  du_counter++;
+  fiber_mutex_unlock(du_m);
+  du_done_c = 1;
+  du_progress();
+  return NULL;
+}
+static void* du_signaller(void* p) {
+  (void)p;
+  while (!du_w_waiting) fiber_yield();
+  for (int k = 0; k < du_sig_yields; k++) fiber_yield();
+  fiber_mutex_lock(du_m);
+  du_flag = 1;
+  fiber_cond_signal(du_cv);
+  fiber_mutex_unlock(du_m);
+  du_progress();
+  return NULL;
+}
+static void* du_child(void* p) {
+  fiber_yield();
+  return p;
+}
+static void* du_poller(void* p) {
+  /* odd pollers keep creating and joining a child instead of only yielding: the join hand-shake uses the
+   * kernel thread's deferred-action slots, like the deferred unlock does */
+  const int joins = (int)(intptr_t)p & 1;
+  while (!(du_done_w && du_done_c)) {
+    if (joins) {
+      void* r = NULL;
+      fiber_t* c = fiber_create(STK, du_child, (void*)0x77);
+      fiber_join(c, &r);
+      if (r != (void*)0x77) sim_violation("C04-wrong-result", "deferred-unlock scenario: join delivered %p", r);
+    } else
+      fiber_yield();
+  }
+  return NULL;
+}
+static void h_deferred_unlock_scenario(const char* prop_oracle) {
+  sim_cfg_t c = sim_config(2, 4, 0, FBIT(F_STALL));
+  du_k = wl_int(0, 3);
+  du_nth = wl_int(1, 2);
+  du_steps = wl_int(1, 8) * 7500; /* long enough for the waiting side to reach its periodic load balancing (every 1024 yields of a thread) */
+  du_sig_yields = wl_int(0, 6);
+  const int npoll = du_npoll = wl_int(1, 3);
+  const int order = wl_pick(2);
+  du_main_waits = wl_pct(50); /* the waiter is the main fiber: kernel thread 0, whose maintenance fiber is not its thread fiber */
+  sim_scenario("deferred-unlock");
+  sim_describe("deferred unlock: threads=%d waiter_pre_yields=%d contender stalls %d steps after its RMW #%d, signaller_yields=%d pollers=%d order=%d main_is_waiter=%d preempt=1/%d", c.threads, du_k, du_steps,
+               du_nth, du_sig_yields, npoll, order, du_main_waits, c.preempt_inv);
+  sim_nontrivial();
+  sim_fiber_mode();
+  sim_hook_spin = du_on_spin;
+  fiber_manager_init(c.threads);
+  du_m = h_dirty_alloc(sizeof *du_m);
+  du_cv = h_dirty_alloc(sizeof *du_cv);
+  fiber_mutex_init(du_m);
+  fiber_cond_init(du_cv);
+  fiber_t* f[8];
+  int n = 0;
+  if (du_main_waits) {
+    /* the other kernel threads come up and look for work meanwhile; a kernel thread balances its load on every
+     * 1024th yield, so bring thread 0 close to that point */
+    const int warm = wl_int(900, 1020);
+    for (int k = 0; k < warm; k++) fiber_yield();
+    fiber_t* c_f = fiber_create(STK, du_contender, NULL);
+    while (!du_nspawned) fiber_yield();
+    du_waiter(NULL);
+    fiber_join(c_f, NULL);
+    for (int i = 0; i < du_nspawned; i++) fiber_join(du_spawned[i], NULL);
+    if (du_counter != 2) sim_violation(prop_oracle, "deferred-unlock scenario: %ld of 2 critical sections ran", du_counter);
+    if (du_m->counter != 1) sim_violation(prop_oracle, "deferred-unlock scenario: mutex counter %d at rest (1 = free)", (int)du_m->counter);
+    h_fiber_end();
+  }
+  if (order) f[n++] = fiber_create(STK, du_contender, NULL);
+  f[n++] = fiber_create(STK, du_waiter, NULL);
+  if (!order) f[n++] = fiber_create(STK, du_contender, NULL);
+  f[n++] = fiber_create(STK, du_signaller, NULL);
+  for (int i = 0; i < npoll; i++) f[n++] = fiber_create(STK, du_poller, (void*)(intptr_t)(i + du_sig_yields));
+  for (int i = 0; i < n; i++) fiber_join(f[i], NULL);
+  if (du_counter != 2) sim_violation(prop_oracle, "deferred-unlock scenario: %ld of 2 critical sections ran", du_counter);
+  if (du_m->counter != 1) sim_violation(prop_oracle, "deferred-unlock scenario: mutex counter %d at rest (1 = free)", (int)du_m->counter);
+  h_fiber_end();
+}
+#endif
 #endif
